@@ -91,7 +91,7 @@ SHAPES3 = {
     "s_list_s": ("s: int, a: List[int], t: int", ["len(a) <= @N@"], "[s, a, t]"),
     "s_s_list": ("s: int, t: int, a: List[int]", ["len(a) <= @N@"], "[s, t, a]"),
 }
-QUICK = {1: ["list", "nested"], 2: ["list_scalar", "scalar_list", "list_list", "nested_scalar"], 3: ["list_s_s", "s_list_s", "s_s_list"]}
+QUICK = {1: ["list", "nested"], 2: ["list_scalar", "scalar_list", "list_list", "nested_scalar", "nested_list"], 3: ["list_s_s", "s_list_s", "s_s_list"]}
 
 
 def live_table():
